@@ -33,8 +33,9 @@ for f in sorted(glob.glob("/verif/seeded/*/meta.json")):
             sid, ", ".join(m.get("files", []))[:60], (m.get("needs", "") or "").replace("|", "/").replace("\n", " ")[:170],
             prop, c["result"], c["distinct_unlisted_signatures"], (", e.g. kind=" + str(kind)) if kind else ""))
 out12 = ["## 12. Seeded changes: which checks catch which", "",
-         "`seeded/<id>/` (see `seeded/README.md` for how they were obtained and confirmed, and for the 13 changes the quick tier",
-         "missed on its first run and what was widened). Result of the property's *quick* tier on a scratch tree with the",
+         "`seeded/<id>/` (see `seeded/README.md` for how they were obtained and confirmed, for the four rounds, and for the",
+         "changes the quick tier missed on its first run - about one in three in every round - and what was widened each time).",
+         "Below: the result of the property's *quick* tier, final drivers, on a scratch tree of the final `/repo` HEAD with the",
          "change applied (`tools/seedcheck.py`, equivalent to `git -C /repo apply` + `./check` + `git -C /repo checkout -- .`):", "",
          "| seeded change | touches | needs, in order to manifest | check | quick tier result |", "|---|---|---|---|---|"] + rows + [""]
 s = open("/verif/DESIGN.md").read()
